@@ -185,6 +185,29 @@ func c08WellFormed(c c08Case, roots []*Task, results []*Result) error {
 		op := fmt.Sprintf("%d/%s", t.Name.InvIndex, t.Name.Op)
 		byOp[op] = append(byOp[op], t)
 	}
+	// a combiner key names the machine-local combine buffers of ONE shuffle: the tasks that write into it
+	// are the shards of one producer stage, and it is read through dependencies on that stage only
+	keyOp := map[string]string{}
+	for _, t := range all {
+		if t.CombineKey != "" {
+			op := fmt.Sprintf("%d/%s", t.Name.InvIndex, t.Name.Op)
+			if o, ok := keyOp[t.CombineKey]; ok && o != op {
+				return fmt.Errorf("combiner key %q is shared by the distinct stages %s and %s", t.CombineKey, o, op)
+			}
+			keyOp[t.CombineKey] = op
+		}
+	}
+	for _, t := range all {
+		for _, d := range t.Deps {
+			if d.CombineKey == "" {
+				continue
+			}
+			op := fmt.Sprintf("%d/%s", d.Head.Name.InvIndex, d.Head.Name.Op)
+			if o, ok := keyOp[d.CombineKey]; !ok || o != op {
+				return fmt.Errorf("task %s reads combiner key %q through a dependency on stage %s, but the key is written by stage %q", t.Name, d.CombineKey, op, o)
+			}
+		}
+	}
 	for i, r := range roots {
 		if r.Name.Shard != i || r.Name.NumShard != len(roots) {
 			return fmt.Errorf("root %d is named %s", i, r.Name)
